@@ -121,17 +121,24 @@ def normalise_result(text, result):
 
 class Pipe(object):
     def __init__(self, w, g90e=False, enter=None, exit_=None, extended=None, arc_stub=True, arc_samples=2,
-                 summarise=True, track_p=True):
+                 summarise=True, track_p=True, plugin=None):
         self.w = w
         env = w.env
-        self.state = env.ExcludeRegionState(NullLogger())
-        self.state.g90InfluencesExtruder = g90e
-        self.state.enteringExcludedRegionGcode = enter
-        self.state.exitingExcludedRegionGcode = exit_
-        if extended:
-            EG = env.ExcludedGcode
-            self.state.extendedExcludeGcodes = {g: EG(g, m, "") for g, m in extended.items()}
-        self.handlers = env.GcodeHandlers(self.state, NullLogger())
+        self.plugin = plugin
+        if plugin is not None:
+            # drive the real plugin hooks (handleGcodeQueuing); state/handlers are the plugin's own
+            self.state = plugin.state
+            self.handlers = plugin.gcodeHandlers
+            g90e = plugin.state.g90InfluencesExtruder
+        else:
+            self.state = env.ExcludeRegionState(NullLogger())
+            self.state.g90InfluencesExtruder = g90e
+            self.state.enteringExcludedRegionGcode = enter
+            self.state.exitingExcludedRegionGcode = exit_
+            if extended:
+                EG = env.ExcludedGcode
+                self.state.extendedExcludeGcodes = {g: EG(g, m, "") for g, m in extended.items()}
+            self.handlers = env.GcodeHandlers(self.state, NullLogger())
         self.V = Printer(w, g90e, "V")
         self.P = Printer(w, g90e, "P")
         # arc validity (non-zero centre offset) is decided by a fork so that V's state stays If-free
@@ -158,9 +165,14 @@ class Pipe(object):
         real = self.state.isPointExcluded
         ctx = self.w.ctx
 
+        state = self.state
+
         def isPointExcluded(x, y):
             return _mk_bool(ctx.summarise(real, x, y))
-        self.state.isPointExcluded = isPointExcluded
+        state.isPointExcluded = isPointExcluded
+        if self.plugin is not None:
+            # PRINT_STARTED etc. keep the same state object, so the instance attribute survives resetState
+            pass
 
     # -- planArc stub: arbitrary sample points, last one is the commanded end point (C16 decides
     #    what the real planArc returns; the pipeline properties must hold for any samples)
@@ -224,7 +236,11 @@ class Pipe(object):
         """Phase 2: run the real handler, let P execute what it returned."""
         rec, c = self._cur
         try:
-            rec.result = self.handlers.handleGcode(rec.text, c.code, None if c.sub is None else str(c.sub))
+            sub = None if c.sub is None else str(c.sub)
+            if self.plugin is not None:
+                rec.result = self.plugin.handleGcodeQueuing(None, "queuing", rec.text, None, c.code, sub)
+            else:
+                rec.result = self.handlers.handleGcode(rec.text, c.code, sub)
         except Exception as ex:
             if not catch:
                 raise
